@@ -154,7 +154,7 @@ EXTRA = {
  'C16': ' Later strata: the left object reached through four histories, array_op_method=raw, numbers on the left (Python and NumPy), the six NumPy comparison functions called by name. Round-3: the comparison functions by name under both settings of array_op_method. Round-5: an object that has seen a rejected indexed write (IndexError) reads and compares as before.',
  'C17': ' Later strata: narrow NumPy carriers, fixed-point values as carriers, like= with scale= / bias=, raw writes on scaled objects, and a scaled object as first / second operand of + - * or as the out= target (it counts by the value it reads back; Spec only). Round-3: routes equal() and like(), NumPy-scalar scale / bias, lists of NumPy uint64 scalars, complex values into scaled objects. Round-5: reading (get_val, str, ==) never changes the stored codes and a second reading returns the same values; all-integer scaled objects; a value-less scaled object and the elements x[i] of a scaled array carry no flags of their own. Round-6: size inference of scaled objects under a coarse max_error (same configuration on both sides); scale / bias as 0-d arrays.',
  'C18': ' Later strata: lists of wide integers, the value buffer after an indexed write, 2-D renderings of wide arrays. Round-3: the shift operators on wide words (scalars and arrays, codes at and next to powers of two). Round-5: the indicator under other n_word_max settings; a sequence assigned to one element is rejected, never stored as a nested array; nested Python lists with elements in [2^63, 2^64).',
- 'C06': ' Later: theorem C06_best_sizes_minimal (+ C06_code_is_exact): with both sizes inferred and below the cap, arrays of any length get the least fraction length exact for every element and the least word holding every code. Round-5: theorems C06_given_frac_minimal_word and C06_given_word_best_frac (one size given); words many bits short of the exact fraction with an extreme just beyond a power of two. Round-6: a prelude (the same values constructed earlier in the process under a coarse max_error) before a share of the cases.',
+ 'C06': ' Later: theorem C06_best_sizes_minimal (+ C06_code_is_exact): with both sizes inferred and below the cap, arrays of any length get the least fraction length exact for every element and the least word holding every code. Round-5: theorems C06_given_frac_minimal_word and C06_given_word_best_frac (one size given); words many bits short of the exact fraction with an extreme just beyond a power of two. Round-6: a prelude (the same values constructed earlier in the process under a coarse max_error) before a share of the cases. Round-7: theorem C06_word_within_max; the capped stratum (wide-dynamic-range arrays, where the cap shortens the fraction) is tied to the corrected model (opcode 100) for inputs that are multiples of 2^-52.',
  'C19': ' Later strata: both operands configured with a larger n_word_max; integers into negative n_frac (Spec and model), operands obtained by indexing, the value method on integer-valued operands whose words add up to 62..66 bits.',
  'C20': ' Later strata: 19 container kinds compared deeply before and after three store routes; T / flatten / ravel / fxp_like among the 17 routes. Round-3: the value view x.real after a write through a view. Round-5: write-through on slices, through rows taken earlier, for words of 64 bits and more, and of a complex value through a view of real values (not lost silently). Round-6: the four Fxp-valued configuration settings set on the source, used and changed through derived objects.',
 }
